@@ -66,6 +66,12 @@ def find_outcome(lf, needle=b"\r\n"):
                 out = "some0"
             elif c[0] == "ne" and 0 in c[1]:
                 out = "some_n"
+        if x[0] == "bin" and x[1] in ("Eq", "Ne") and truth(c) is not None:
+            # `found == 0` written as a comparison instead of a `Some(0)` pattern
+            for a, b in ((x[2], x[3]), (x[3], x[2])):
+                if const_of(b) == 0 and payload_of(a) is not None and is_find_crlf(payload_of(a), needle):
+                    zero = truth(c) if x[1] == "Eq" else not truth(c)
+                    out = "some0" if zero else "some_n"
     return out
 
 
